@@ -709,3 +709,108 @@ Proof.
   - rewrite andb_true_r. rewrite str_eqb_eq. split; intro H; [now subst | now inversion H].
   - split; discriminate.
 Qed.
+
+(* ---------- the protocol in force removes its temp file ---------- *)
+(* after the process has EXITED (was not killed), the temp path is empty again,
+   unless the clean-up unlink itself failed *)
+Definition tmp_gone (tmp : path) (w' : world) : Prop :=
+  files (w_fs w') tmp = None \/ exists e, In (CUnlink tmp, RErr e) (w_trace w').
+
+Lemma post_any {A} (m : world -> step A) w (Q : A -> world -> Prop) (K : status -> world -> Prop) :
+  (forall a w', Q a w') -> (forall s w', K s w') -> post m w Q K.
+Proof. intros HQ HK. unfold post. destruct (m w); auto. Qed.
+
+Lemma remove_temp_gone tmp w :
+  post (remove_temp tmp) w (fun _ w' => tmp_gone tmp w') (fun _ _ => True).
+Proof.
+  unfold remove_temp. apply post_bind, post_syscall; auto.
+  intros k fs' r El Heff. simpl in Heff. destruct Heff as [[Hr ->] | [-> ->]].
+  - rewrite Hr. apply is_ok_false in Hr. destruct Hr as [e ->].
+    apply post_bind, post_syscall; auto.
+    intros k2 fs2 r2 El2 _. apply post_ret. right. exists e. simpl. auto.
+  - simpl. apply post_ret. left. cbn [w_fs]. apply upd_same.
+Qed.
+
+Lemma close_remove_temp_gone tmp w :
+  post (close_remove_temp tmp) w (fun _ w' => tmp_gone tmp w') (fun _ _ => True).
+Proof.
+  unfold close_remove_temp. apply post_bind, post_syscall; auto.
+  intros k fs' r El _. apply remove_temp_gone.
+Qed.
+
+Lemma write_atomically_clean out target tmp w :
+  post (write_atomically out target tmp) w
+       (fun _ w' => w_fs w' = w_fs w \/ (files (w_fs w) tmp = None /\ tmp_gone tmp w'))
+       (fun _ _ => True).
+Proof.
+  unfold write_atomically. apply post_bind, post_syscall; auto.
+  intros k0 fs' r0 El0 [-> Hm]. cbn [w_fs].
+  destruct r0 as [| | |m|]; try (apply post_ret; left; reflexivity).
+  destruct (Hm m eq_refl) as [f0 [Hf0 _]].
+  apply post_bind, post_syscall; auto.
+  intros k fs1 r1 El1 Heff. simpl in Heff. destruct Heff as [[Hr ->] | [-> [H0 ->]]].
+  - rewrite Hr. apply post_ret. left. reflexivity.
+  - simpl is_ok. cbv iota.
+    assert (Hne : tmp <> target) by (intro E; subst tmp; congruence).
+    assert (Hgo : forall (m0 : world -> step bool) w2,
+               post m0 w2 (fun _ w' => tmp_gone tmp w') (fun _ _ => True) ->
+               post m0 w2 (fun _ w' => w_fs w' = w_fs w \/ (files (w_fs w) tmp = None /\ tmp_gone tmp w')) (fun _ _ => True)).
+    { intros m0 w2 H. eapply post_weaken; [exact H | | auto]. intros a w' Hg. right. auto. }
+    apply post_bind. apply post_any; auto. intros okw w2. destruct okw.
+    + apply post_bind, post_syscall; auto.
+      intros k2 fs2 r2 El2 _. destruct (is_ok r2).
+      * apply post_bind, post_syscall; auto.
+        intros k3 fs3 r3 El3 _. destruct (is_ok r3).
+        -- apply post_bind, post_syscall; auto.
+           intros k4 fs4 r4 El4 _.
+           apply post_bind, post_syscall; auto.
+           intros k5 fs5 r5 El5 Heff5. simpl in Heff5.
+           destruct Heff5 as [[Hr5 ->] | [f [Hf [-> [[E _] | [_ ->]]]]]].
+           ++ rewrite Hr5. apply Hgo, remove_temp_gone.
+           ++ contradiction.
+           ++ simpl is_ok. cbv iota. apply post_ret. right. split; auto. left. cbn [w_fs]. apply upd_same.
+        -- apply Hgo, remove_temp_gone.
+      * apply Hgo, close_remove_temp_gone.
+    + apply Hgo, close_remove_temp_gone.
+Qed.
+
+Section FormatterClean.
+  Variable fmt1 : bytes -> option bytes.
+  Variable parts : bytes -> list bytes.
+  Variable join : bytes -> list bytes -> bytes.
+
+  Lemma fmt_file_clean target tmp w :
+    post (fmt_file fmt1 parts join Current CmdWrite target tmp) w
+         (fun _ w' => w_fs w' = w_fs w \/ (files (w_fs w) tmp = None /\ tmp_gone tmp w'))
+         (fun _ _ => True).
+  Proof.
+    unfold fmt_file. apply post_bind. eapply post_weaken; [apply read_file_post | | auto].
+    intros r w1 [H1 _]. destruct r as [src|]; [|apply post_ret; auto].
+    destruct (fmt_all fmt1 parts join src) as [out|]; [|apply post_ret; auto].
+    simpl. eapply post_weaken; [apply write_atomically_clean | | auto].
+    intros b w2 H. rewrite H1 in H. exact H.
+  Qed.
+
+  (* T6: a run of the protocol in force that exits (is not killed) leaves nothing at the temp
+     path that was not there before, unless the clean-up unlink failed *)
+  Lemma fmt_w_no_temp_left target tmp fs sched kill n :
+    let r := run fmt1 parts join Current CmdWrite target tmp fs sched kill in
+    r_status r = Exit n ->
+    files (r_fs r) tmp = files fs tmp \/ exists e, In (CUnlink tmp, RErr e) (r_trace r).
+  Proof.
+    cbv zeta. unfold run.
+    pose proof (fmt_file_clean target tmp {| w_fs := fs; w_sched := sched; w_left := kill; w_trace := [] |}) as Hc.
+    pose proof (fmt_file_post fmt1 parts join Current CmdWrite target tmp
+                  {| w_fs := fs; w_sched := sched; w_left := kill; w_trace := [] |}) as Hp.
+    unfold post in Hc, Hp.
+    destruct (fmt_file fmt1 parts join Current CmdWrite target tmp
+                {| w_fs := fs; w_sched := sched; w_left := kill; w_trace := [] |}) as [b w'|s w'].
+    - cbn [w_fs] in Hc. intros _.
+      assert (Hgoal : files (w_fs w') tmp = files fs tmp \/ exists e, In (CUnlink tmp, RErr e) (rev (w_trace w'))).
+      { destruct Hc as [-> | [H0 [Hg | [e He]]]]; auto.
+        - left. now rewrite Hg, H0.
+        - right. exists e. now apply in_rev in He. }
+      destruct b; exact Hgoal.
+    - destruct Hp as [-> _]. simpl. discriminate.
+  Qed.
+End FormatterClean.
